@@ -131,8 +131,19 @@ def r3(ctx):
     wh, wp = bit_const("header_bit"), bit_const("partial_bit")
     wh = bit_direct("header_bit") if wh is None else wh
     wp = bit_direct("partial_bit") if wp is None else wp
+    # path-sensitive value table over both flags: decides any spelling (two `if`s, `match (h, p)`,
+    # u32::from(flag) << k) and is the deciding clause where it applies
+    tab = flag_table(fb, ["header_bit", "partial_bit"])
+    tab_ok = None
+    if tab is not None and len({o for _, o in tab.values()}) == 1 and len(next(iter(tab.values()))[1]) == 1:
+        v00, v01, v10, v11 = (tab[(h_, p_)][0] for h_, p_ in ((False, False), (False, True), (True, False), (True, True)))
+        tab_ok = v00 == 0 and v11 == (v10 | v01)
+        if tab_ok:
+            wh, wp = v10, v01
+        else:
+            wh = wp = None
     ors = [s for s in subterms(w) if isinstance(s, tuple) and s[0] == "bin" and s[1] == "BitOr"]
-    ctx.check(P, rule, "writer: (len << 2) | header_bit | partial_bit", wshift is not None and len(ors) == 2 and wh is not None and wp is not None, "shift %s, header bit %s, partial bit %s" % (wshift, wh, wp),
+    ctx.check(P, rule, "writer: (len << 2) | header_bit | partial_bit", wshift is not None and (len(ors) == 2 or (tab_ok and len(ors) >= 1)) and wh is not None and wp is not None, "shift %s, header bit %s, partial bit %s" % (wshift, wh, wp),
               "build_len_and_info_header returns %s" % term_str(w)[:200])
     # the guard `if len & MASK != 0 { panic }`: the mask is whatever constant the length is tested
     # against on a branch whose non-zero side never returns
